@@ -59,7 +59,7 @@ pub fn check_search(c: &Case, b: &Board, depth: u8, attack: bool) -> Result<Stri
     let fen = c.pos.fen4();
     let _job = crate::watch::enter(
         format!("C08 fen={} depth={} no-answer", fen, depth),
-        format!("fresh engine, search of {:?} to depth {}: no answer after {} s of wall time", fen, depth, crate::watch::LIMIT_S),
+        format!("fresh engine, search of {:?} to depth {}: no answer after {} s of CPU time", fen, depth, crate::watch::LIMIT_S),
         vec!["c08-one".to_string(), "--fen".into(), fen.clone(), "--depth".into(), depth.to_string(), "--mode".into(), if attack { "attack".into() } else { "defence".into() }],
     );
     let (_, mv) = guard(|| {
@@ -239,7 +239,57 @@ fn gen_kqr_defence(out: &mut dyn FnMut(Pos), full: bool) {
     }
 }
 
+/// Mates delivered by castling (the castled rook gives the check): K e1 + R h1 with the right K, or
+/// R a1 with the right Q, a queen and one more white man anywhere, black king anywhere. Kept are the
+/// positions in which castling mates with white to move, and the same placements with black to move
+/// (the defender must see the castling mate coming). Both colours.
+fn gen_castle_mates(out: &mut dyn FnMut(Pos), full: bool) {
+    use crate::refchess::{WK, WQ};
+    let helpers: Vec<Kind> = if full { vec![Kind::N, Kind::B, Kind::R, Kind::P] } else { vec![Kind::N] };
+    for (rook, right, kto) in [(7u8, WK, 6u8), (0u8, WQ, 2u8)] {
+        for helper in &helpers {
+            for bk in 0..64u8 {
+                for q in 0..64u8 {
+                    for x in 0..64u8 {
+                        let mut p = Pos::empty();
+                        let list = [(Side::W, Kind::K, 4u8), (Side::W, Kind::R, rook), (Side::B, Kind::K, bk), (Side::W, Kind::Q, q), (Side::W, *helper, x)];
+                        let mut clash = false;
+                        for (s, k, sq) in list {
+                            if p.sq[sq as usize].is_some() {
+                                clash = true;
+                                break;
+                            }
+                            p.sq[sq as usize] = Some((s, k));
+                        }
+                        if clash {
+                            continue;
+                        }
+                        p.castle[right] = true;
+                        p.stm = Side::W;
+                        if !p.is_valid() {
+                            continue;
+                        }
+                        let castle = Mv { from: 4, to: kto, promo: None };
+                        if !p.legal_moves().contains(&castle) || !p.make(castle).is_checkmate() {
+                            continue;
+                        }
+                        let mut b = p.clone();
+                        b.stm = Side::B;
+                        if b.is_valid() {
+                            out(b.mirror());
+                            out(b);
+                        }
+                        out(p.mirror());
+                        out(p);
+                    }
+                }
+            }
+        }
+    }
+}
+
 const SPACES_QUICK: &[Space] = &[
+    Space { name: "castling mates", description: "K e1 + R h1 (right K) or R a1 (right Q) + Q + N anywhere v k anywhere: every placement in which castling is mate, white to move and black to move, both colours", gen: gen_castle_mates },
     Space { name: "K+Q v k", description: "every valid placement with the lone king in the a1-d1-d4 triangle, both sides to move, both colours", gen: gen_kqk },
     Space { name: "K+R v k", description: "every valid placement with the lone king in the a1-d1-d4 triangle, both sides to move, both colours", gen: gen_krk },
     Space { name: "K+P v k", description: "pawn on its 6th or 7th rank, kings anywhere, both sides to move, both colours", gen: gen_kpk },
@@ -247,6 +297,7 @@ const SPACES_QUICK: &[Space] = &[
 ];
 
 const SPACES_THOROUGH: &[Space] = &[
+    Space { name: "castling mates", description: "K e1 + R h1 (right K) or R a1 (right Q) + Q + one of N/B/R/P anywhere v k anywhere: every placement in which castling is mate, white to move and black to move, both colours", gen: gen_castle_mates },
     Space { name: "K+Q v k", description: "every valid placement, both sides to move, both colours", gen: gen_kqk },
     Space { name: "K+R v k", description: "every valid placement, both sides to move, both colours", gen: gen_krk },
     Space { name: "K+P v k", description: "pawn on its 6th or 7th rank, kings anywhere, both sides to move, both colours", gen: gen_kpk },
